@@ -11,7 +11,7 @@ class Ty:
     def __init__(self, tid, rec):
         self.id = tid
         self.raw = rec
-        self.str = rec.get("str", "?")
+        self.str = norm_name(rec.get("str", "?"))
         self.layout = rec.get("layout")
         self.bits = None
         self.signed = False
@@ -47,6 +47,7 @@ class Ty:
         elif tag == "Adt":
             self.kind = "adt"
             self.adt = rec["adt"]
+            self.adt["name"] = norm_name(self.adt["name"])
         elif tag == "Array":
             self.kind = "array"
             self.elem = val[0]
@@ -105,13 +106,21 @@ class Ty:
         return "Ty(%d:%s)" % (self.id, self.str)
 
 
+_IDENT_RE = re.compile(r"syn::Ident(?![A-Za-z0-9_])")
+
+
+def norm_name(n):
+    """canonical spelling of re-exported paths (rustc prints the shortest visible path per crate)"""
+    return _IDENT_RE.sub("proc_macro2::Ident", n.replace("darling_core::", "darling::"))
+
+
 class Inst:
     __slots__ = ("id", "name", "kind", "intrinsic", "body", "stopped", "aux", "abi", "args", "ty",
                  "model", "has_body", "sig", "nlocals", "spread_arg", "arg_count", "blocks", "local_tys")
 
     def __init__(self, iid, rec):
         self.id = iid
-        self.name = rec["name"]
+        self.name = norm_name(rec["name"])
         self.kind = rec["kind"]
         self.intrinsic = rec.get("intrinsic")
         self.body = rec.get("body")
